@@ -6,6 +6,7 @@ import (
 	"fmt"
 	"os"
 	"path/filepath"
+	"sync"
 
 	"mossverif/eng"
 	"mossverif/run"
@@ -28,11 +29,28 @@ type steeredProfile struct {
 	lowerPlan func(r *eng.Rng, p *eng.Program) map[int]bool
 }
 
+var findingsOnce sync.Once
+var findings []run.Finding
+
+func knownFindings() []run.Finding {
+	findingsOnce.Do(func() {
+		d := os.Getenv("VERIF_DIR")
+		if d == "" {
+			d = "/verif"
+		}
+		findings, _ = run.LoadFindings(filepath.Join(d, "known_findings.json"))
+	})
+	return findings
+}
+
 func runProgram(p *eng.Program, o eng.Oracles, scratch string, idx int, failPlan map[int]bool) (*eng.Result, *eng.Runner) {
 	dir := filepath.Join(scratch, fmt.Sprintf("case%06d", idx))
 	os.MkdirAll(dir, 0o755)
 	defer os.RemoveAll(dir)
 	r := eng.NewRunner(p, o, dir)
+	r.Tolerate = func(v eng.Violation) bool {
+		return run.Match(knownFindings(), run.ViolationRec{Property: v.Property, Oracle: v.Oracle, Class: v.Class, Disc: v.Disc}) != nil
+	}
 	if p.Cfg.Backing == "custom" {
 		r.E.Lower = eng.NewLower(nil)
 		for k, v := range failPlan {
@@ -86,7 +104,7 @@ func registerSteered(sp steeredProfile) {
 			for k, v := range res.Counters {
 				sr.Counters[k] += v
 			}
-			for _, v := range res.Violations {
+			for _, v := range append(append([]eng.Violation{}, res.Tolerated...), res.Violations...) {
 				rb, _ := json.Marshal(body)
 				sr.Violations = append(sr.Violations, run.ViolationRec{
 					Property: sp.prop, Oracle: v.Oracle, Class: v.Class, Disc: v.Disc,
